@@ -192,6 +192,8 @@ where
     ) -> impl Future<Output = Result<usize>> + use<'a, S> {
         let this = Rc::clone(self);
         async move {
+            #[cfg(feature = "verif-hooks")]
+            crate::system::r#virtual::sim_hook::preempt_point_current("read").await;
             let mut this = TemporaryNonBlockingGuard::new(&this, fd);
             let waker = LazyCell::default();
             loop {
@@ -202,6 +204,8 @@ where
                     )]
                     Err(Errno::EAGAIN | Errno::EWOULDBLOCK | Errno::EINTR) => {
                         this.yield_for_read(fd, &waker).await;
+                        #[cfg(feature = "verif-hooks")]
+                        crate::system::r#virtual::sim_hook::preempt_point_current("read").await;
                         this.ensure_nonblocking();
                     }
 
@@ -232,6 +236,8 @@ where
     ) -> impl Future<Output = Result<usize>> + use<'a, S> {
         let this = Rc::clone(self);
         async move {
+            #[cfg(feature = "verif-hooks")]
+            crate::system::r#virtual::sim_hook::preempt_point_current("write").await;
             let mut this = TemporaryNonBlockingGuard::new(&this, fd);
             let waker = LazyCell::default();
             loop {
@@ -242,6 +248,8 @@ where
                     )]
                     Err(Errno::EAGAIN | Errno::EWOULDBLOCK | Errno::EINTR) => {
                         this.yield_for_write(fd, &waker).await;
+                        #[cfg(feature = "verif-hooks")]
+                        crate::system::r#virtual::sim_hook::preempt_point_current("write").await;
                         this.ensure_nonblocking();
                     }
 
